@@ -71,7 +71,8 @@ extern int mpt_vprintf(MPT_STRUCT(array) *arr, const char *format, va_list args)
 		buf->_used = used;
 		return MPT_ERROR(BadValue);
 	}
-	if (rval >= 0 && (size_t) rval <= len) {
+	/* output and termination must fit */
+	if (!rval || (size_t) rval < len) {
 		if ((size_t) rval < len) {
 			base[rval] = '\0';
 		}
@@ -82,16 +83,18 @@ extern int mpt_vprintf(MPT_STRUCT(array) *arr, const char *format, va_list args)
 		len += 64;
 	}
 	if (!(base = mpt_array_slice(arr, used, len))) {
+		buf->_used = used;
 		return MPT_ERROR(BadOperation);
 	}
+	buf = arr->_buf;
 	size = used + len;
-	if ((rval = vsnprintf(base, len, format, args)) > 0) {
-		used += rval;
-		if (used < size) {
-			base[rval] = '\0';
-			return rval;
-		}
+	if ((rval = vsnprintf(base, len, format, args)) > 0
+	    && (used + rval) < size) {
+		base[rval] = '\0';
+		buf->_used = used + rval;
+		return rval;
 	}
+	buf->_used = used;
 	return MPT_ERROR(BadValue);
 }
 
